@@ -195,3 +195,9 @@ func (r *simRows) Next(dest []driver.Value) error {
 	r.pos++
 	return nil
 }
+
+func (db *simDB) fired() int {
+	db.mu.Lock()
+	defer db.mu.Unlock()
+	return db.Fired
+}
